@@ -18,7 +18,7 @@ static const int LMAX_FIT[2][7][5] = {
 static CaseResult run_case(Tape &t)
 {
 	CaseResult r;
-	Conf c; c.qt = (int)t.below(7); c.de = (int)t.below(5); c.namekind = (int)t.below(3); c.buflen = t.chance(1, 2) ? 4096 : 65536;
+	Conf c; c.qt = (int)t.below(7); c.de = (int)t.below(5); c.namekind = (int)t.below(4); c.buflen = t.chance(1, 2) ? 4096 : 65536;
 	size_t len;
 	switch (t.pick({3, 3, 2, 2})) { case 0: len = (size_t)t.range(2, 60); break; case 1: len = (size_t)t.range(2, 400); break; case 2: len = (size_t)t.range(2, 4096); break; default: len = (size_t)(252 * t.range(1, 10) + t.range(-3, 3)); break; }
 	if (len < 2) len = 2;
@@ -30,7 +30,7 @@ static CaseResult run_case(Tape &t)
 	if (k == 3) r.fail(std::string("C09:mismatch:type=") + QTN[c.qt] + ":codec=" + DE[c.de], "client extracted different bytes than the server was given: " + r.render + " got=" + hexs(o.out, 40));
 	if (r.ok && k != 0 && o.ref_exact && (int)len <= LMAX_FIT[c.buflen > 4096][c.qt][c.de]) r.fail("C09:fits-but-not-delivered", "the payload fits the answer format (the reference decoder extracts all of it) but the client did not deliver it exactly: " + r.render);
 	// the outcome is a matter of the answer format, not of the length of the echoed query name
-	Conf c2 = c; c2.namekind = (c.namekind + 1 + (int)t.below(2)) % 3;
+	Conf c2 = c; c2.namekind = (c.namekind + 1 + (int)t.below(3)) % 4;
 	Outcome o2 = roundtrip(c2, p, (uint16_t)(1 + t.below(65535)));
 	int k2 = classify(p, o2);
 	if (r.ok && k2 != 3 && (k2 != k || o2.out.size() != o.out.size())) r.fail("C09:depends-on-query-name", "the same payload in the same answer format is extracted differently for another query-name length: " + r.render + " | " + conf_str(c2) + " -> rv=" + std::to_string(o2.rv));
@@ -51,12 +51,12 @@ static bool exhaustive(Stats &st, std::string &msg)
 		int ncls = level >= 2 ? 5 : 2;
 		for (int ci = 0; ci < ncls; ci++) {
 			int cls = level >= 2 ? ci : (ci == 0 ? (qt + de) % 5 : 1);
-			int lmax[3] = {1, 1, 1}; bool broken[3] = {false, false, false}; int first_bad[3] = {0, 0, 0};
+			int lmax[4] = {1, 1, 1, 1}; bool broken[4] = {false, false, false, false}; int first_bad[4] = {0, 0, 0, 0};
 			for (int len = 2; len <= 4096; len++) {
 				if (level < 2 && len > 320 && len % 5 != (qt + de) % 5 && !(len % 252 < 4 || len % 252 > 248) && len < 4090 && !(len >= 2100 && len <= 2180) && !(len >= 3790 && len <= 3830)) continue;
 				Bytes p = content(len, cls, len * 31 + qt);
-				int kk[3]; size_t got[3];
-				for (int nk = 0; nk < 3; nk++) {
+				int kk[4]; size_t got[4];
+				for (int nk = 0; nk < 4; nk++) {
 					Conf c{qt, de, nk, bl ? 65536 : 4096};
 					Outcome o = roundtrip(c, p);
 					int k = classify(p, o);
@@ -76,7 +76,7 @@ static bool exhaustive(Stats &st, std::string &msg)
 				}
 				// whether a payload fits is a matter of the answer format (type x codec), not of the query name that is echoed in front
 				// of it: minimum-length and maximum-length query names must give the same outcome
-				for (int nk = 1; nk < 3; nk++) if (kk[nk] != kk[0] || got[nk] != got[0]) {
+				for (int nk = 1; nk < 4; nk++) if (kk[nk] != kk[0] || got[nk] != got[0]) {
 					Conf c0{qt, de, 0, bl ? 65536 : 4096}, c1{qt, de, nk, bl ? 65536 : 4096};
 					static const char *KN[] = {"exact", "nothing", "prefix"};
 					msg = "C09:depends-on-query-name: payload of " + std::to_string(len) + " bytes (content class " + std::to_string(cls) + "): " + conf_str(c0) + " -> " + KN[kk[0]] + " (" + std::to_string(got[0]) + " bytes), " + conf_str(c1) + " -> " + KN[kk[nk]] + " (" + std::to_string(got[nk]) + " bytes)";
